@@ -198,6 +198,37 @@ def run(ctx):
             elif "arithmetic-error" not in errs:
                 ctx.violation("an arithmetic error was not reported as such", inp, expected="arithmetic-error", observed=errs)
         ctx.count("spec-" + s[0])
+    # ---- chains of infix operators without brackets: the tree the real parser builds against the total
+    # Lean model of the precedence loop (Model.Shunt: flatten_shunt, shunt_normal, normal_unique)
+    chain_ops = ["*", "/", "%", "+", "-", "<<", ">>", "_", "&", "^", "|", "!"]
+
+    def py_tree(node):
+        name = type(node).__name__
+        if hasattr(node, "lhs") and hasattr(node, "rhs"):
+            return "(%s %s %s)" % (py_tree(node.lhs), name, py_tree(node.rhs))
+        return str(node.value)
+    creqs, cjobs = [], []
+    for _ in range(1500 if ctx.thorough else 400):
+        k = rng.randint(1, 8)
+        atoms = [rng.randrange(1, 200) for _ in range(k + 1)]
+        ops = [rng.choice(chain_ops) for _ in range(k)]
+        text = "%d." % atoms[0] + "".join(" %s %d." % (o, a) for o, a in zip(ops, atoms[1:]))
+        r = impl.assemble([("/t/chain.mac", "res = " + text + "\n")], parse_only=True)
+        ctx.case("chain:" + text)
+        ctx.count("operator chains")
+        if r.outcome != "ok":
+            ctx.disagree("operator chain does not parse", text, "a tree", r.summary())
+            continue
+        got = py_tree(r.compiler[0].body.insns[0].value)
+        creqs.append("shunt %d %s" % (atoms[0], " ".join("%s %d" % (o, a) for o, a in zip(ops, atoms[1:]))))
+        cjobs.append((text, got))
+    for (text, got), a in zip(cjobs, ctx.driver.ask(creqs)):
+        if a != got:
+            ctx.disagree("Shunt.shunt (tree of the precedence loop)", text, a, got)
+            # C-like reading violated? evaluate both readings: if the values differ the oracle above would
+            # also see it on its own inputs; here the replay is the tree itself
+            ctx.violation("an unbracketed operator chain is not grouped by precedence and left associativity", {"expression": text},
+                          expected=a, observed=got)
     # ---- literals: every radix spelling, the 8/9 rule
     lit_cases = []
     for v in [0, 1, 7, 8, 9, 10, 63, 64, 255, 0o777, 0o1000, 65535, 65536, 123456789]:
